@@ -28,3 +28,20 @@ def stereo_stem_collision(what, case, detail):
     return isinstance(case, dict) and case.get("d6_shape") is True and what in (
         "output file names of one directory pairwise distinct",
         "number of files on disk equals number of Exported lines (no two samples to one path)")
+
+
+def akai_empty_window(what, case, detail):
+    """D13: an AKAI sample whose start marker equals its end marker (empty window) inside a
+    non-empty file is exported from the start marker to the end of the file: a data window of
+    size 0 makes StreamWrapper read unclipped (end_of_file == 0 means 'no limit')."""
+    return what == "PCM is byte-identical to the words between the start and end markers" and isinstance(case, dict) \
+        and case.get("empty_window_in_nonempty_file") is True
+
+
+def akai_zone_arrays_shift(what, case, detail):
+    """D12: the three per-zone arrays of an AKAI keygroup (key tracking, aux output offset,
+    velocity to sample start) are cut to the first num_active entries, while the listed zones
+    are the NON-EMPTY slots: with an empty slot stored before a non-empty one the listed zone
+    shows another slot's values."""
+    return what == "per-zone key tracking / aux output / sample start values are those of the zone's own slot" \
+        and isinstance(case, dict) and case.get("zone_gap") is True
